@@ -5,7 +5,7 @@ import LMV.Driver.Util
   C16 driver.  One case line is one sampler run:
 
     c16run <alpha> <mode> <cols> <w> <initial> <inertia> <patience> <rngseed> <maxsteps> <wrap>
-           <n> { <L> <sym>×L }×n
+           <backend> <n> { <L> <sym>×L }×n
            | new-panic
            | ok <start>×n <ns> <seed>×ns <T> { <z> <newstart> <discard> }×T <end|more|panic>
 
@@ -111,7 +111,7 @@ def runCase (K : Nat) (cols : Nat) (P : Params) (seqs : List (Array Nat)) (wrap 
 
 def handle (toks : List String) : String :=
   match toks with
-  | "c16run" :: alpha :: mode :: cols :: w :: initial :: inertia :: patience :: _rngseed :: _max :: wrap :: n :: rest =>
+  | "c16run" :: alpha :: mode :: cols :: w :: initial :: inertia :: patience :: _rngseed :: _max :: wrap :: _backend :: n :: rest =>
     let P : Params := { w := parseNat! w, zoops := mode == "zoops", initial := parseNat! initial,
                         inertia := parseNat! inertia, patience := parseNat! patience }
     let (seqs, rest) := parseSeqs (parseNat! n) rest
